@@ -18,9 +18,25 @@ import (
 	spb "google.golang.org/genproto/googleapis/rpc/status"
 )
 
+// respHandler is the registration of one call: the queue its responses are
+// delivered to, and a signal that the call has stopped consuming them.
+type respHandler struct {
+	ch chan *goatorepo.Rpc
+
+	// abandoned is closed once the call no longer reads from ch, so that the
+	// read loop never waits (holding the registry lock) for a consumer which is
+	// itself waiting for that lock in order to unregister.
+	abandoned chan struct{}
+	once      sync.Once
+}
+
+func (h *respHandler) abandon() {
+	h.once.Do(func() { close(h.abandoned) })
+}
+
 type RpcMultiplexer struct {
 	rw       types.RpcReadWriter
-	handlers map[uint64]chan *goatorepo.Rpc
+	handlers map[uint64]*respHandler
 
 	ctx    context.Context
 	cancel context.CancelFunc
@@ -35,7 +51,7 @@ type RpcMultiplexer struct {
 func NewRpcMultiplexer(rw types.RpcReadWriter) *RpcMultiplexer {
 	rm := &RpcMultiplexer{
 		rw:       rw,
-		handlers: make(map[uint64]chan *goatorepo.Rpc),
+		handlers: make(map[uint64]*respHandler),
 		codec:    encoding.GetCodecV2(proto.Name),
 	}
 
@@ -62,8 +78,8 @@ func (rm *RpcMultiplexer) closeError(err error) {
 
 	if err != nil {
 		rm.rErr = err
-		for id, ch := range rm.handlers {
-			close(ch)
+		for id, h := range rm.handlers {
+			close(h.ch)
 			delete(rm.handlers, id)
 		}
 	}
@@ -84,8 +100,11 @@ func (rm *RpcMultiplexer) CallUnaryMethod(
 
 	respChan := make(chan *goatorepo.Rpc, 1)
 
-	rm.registerHandler(streamId, respChan)
-	defer rm.unregisterHandler(streamId)
+	h := rm.registerHandler(streamId, respChan)
+	defer func() {
+		h.abandon()
+		rm.unregisterHandler(streamId)
+	}()
 
 	rpc := goatorepo.Rpc{
 		Id:     streamId,
@@ -144,9 +163,10 @@ func (rm *RpcMultiplexer) NewStreamReadWriter(
 	streamId := atomic.AddUint64(&rm.streamCounter, 1)
 
 	respChan := make(chan *goatorepo.Rpc, 1)
-	rm.registerHandler(streamId, respChan)
+	h := rm.registerHandler(streamId, respChan)
 
 	teardown := func() {
+		h.abandon()
 		rm.unregisterHandler(streamId)
 	}
 
@@ -195,28 +215,34 @@ func (rm *RpcMultiplexer) handleResponse(rpc *goatorepo.Rpc) {
 	rm.mutex.Lock()
 	defer rm.mutex.Unlock()
 
-	ch, ok := rm.handlers[rpc.GetId()]
+	h, ok := rm.handlers[rpc.GetId()]
 	if !ok {
 		// TODO: getting log lines from here after cancelling streams
 		log.Error().Msgf("Mux: unhandled Rpc %d", rpc.GetId())
 		return
 	}
-	ch <- rpc
+	select {
+	case h.ch <- rpc:
+	case <-h.abandoned:
+		log.Trace().Msgf("Mux: dropping Rpc %d for a call which has gone", rpc.GetId())
+	}
 }
 
-func (rm *RpcMultiplexer) registerHandler(id uint64, c chan *goatorepo.Rpc) {
+func (rm *RpcMultiplexer) registerHandler(id uint64, c chan *goatorepo.Rpc) *respHandler {
 	rm.mutex.Lock()
 	defer rm.mutex.Unlock()
 
-	rm.handlers[id] = c
+	h := &respHandler{ch: c, abandoned: make(chan struct{})}
+	rm.handlers[id] = h
+	return h
 }
 
 func (rm *RpcMultiplexer) unregisterHandler(id uint64) {
 	rm.mutex.Lock()
 	defer rm.mutex.Unlock()
 
-	if ch, ok := rm.handlers[id]; ok {
-		close(ch)
+	if h, ok := rm.handlers[id]; ok {
+		close(h.ch)
 	}
 
 	delete(rm.handlers, id)
